@@ -5,6 +5,7 @@ package lmd
 import (
 	"context"
 	"fmt"
+	"sort"
 	"sync/atomic"
 	"time"
 )
@@ -264,4 +265,15 @@ func (inst *VerifInstance) VerifSendCommands(id string, commands []string) strin
 // VerifSetMaxParallel is a no-op placeholder to keep the API stable.
 func (inst *VerifInstance) VerifDescribe() string {
 	return fmt.Sprintf("%d peers", len(inst.Lmd.PeerMapOrder))
+}
+
+// verifSortedKeys: the harness build walks the map of changed timeperiods by name (see CLOCK_PATCHES)
+func verifSortedKeys(m map[string]bool) []string {
+	keys := make([]string, 0, len(m))
+	for k := range m {
+		keys = append(keys, k)
+	}
+	sort.Strings(keys)
+
+	return keys
 }
